@@ -162,7 +162,19 @@ static bool run_ray(const RayCtx &cx, GridT &grid, const RayCase &rc, verif::Res
            M.steps, M.total, M.tau, (int)M.absorbed, M.last_cell, M.pos[0], M.pos[1], M.pos[2], M.wraps[0], M.wraps[1], M.wraps[2], (int)M.tie_at_wall);
     printf(" real     : returned cell %zu (%s), end (%.17g %.17g %.17g)\n", ret, absorbed ? "absorbed" : "escaped", fin[0], fin[1], fin[2]);
   }
-  if (M.tie_at_wall) {
+  // a photon never ends outside the box, whatever the tie-breaking
+  {
+    const Q btol = tol_t + tol_abs + K * DBL_EPSILON * coordmax;
+    for (int d = 0; d < 3; ++d)
+      if ((Q)fin[d] < (Q)cx.A[d] - btol || (Q)fin[d] > (Q)cx.A[d] + cx.S[d] + btol) {
+        good = false;
+        R.violation(PFX + ":final-position-outside-box" + kk,
+                    fmt("photon ends at (%.17g, %.17g, %.17g), outside the box along axis %d (reported %s): ", fin[0], fin[1], fin[2], d, absorbed ? "absorbed" : "escaped") + rep, rep);
+        break;
+      }
+  }
+  if (M.tie_at_wall || M.near_edge) {
+    // ties: either adjacent cell may receive the path, either outcome at a wall
     ++st.ties;
   } else if (absorbed != M.absorbed) {
     flag_ok = false;
@@ -173,7 +185,7 @@ static bool run_ray(const RayCtx &cx, GridT &grid, const RayCase &rc, verif::Res
   }
   (absorbed ? st.rays_abs : st.rays_esc)++;
   // a wrong flag alone does not stop the comparison of deposits and position
-  const bool compare_detail = !M.tie_at_wall;
+  const bool compare_detail = !M.tie_at_wall && !M.near_edge;
   for (size_t i = 0; i < N; ++i) {
     const double J = DensityGrid::iterator(realidx(i), grid).get_ionization_variables().get_mean_intensity(ION_H_n);
     sumreal += J;
